@@ -41,7 +41,7 @@ def run(ctx):
     root = common.scratch_dir('rules')
     sdir = common.scratch_dir('sess')
     for i in range(ctx.scale(8, 60)):
-        spec = C12.small_ruleset(rng, markov_pos=rng.choice([0, 1, 2, 3]))
+        spec = C12.small_ruleset(rng, markov_pos=rng.choice([0, 1, 2, 3]), rich=i % 2 == 1)
         d = common.write_ruleset(os.path.join(root, f"c15_{i % 5}"), spec)
         pcfg = common.load_grammar(d)
         units = ss.units_of(pcfg)
